@@ -433,6 +433,22 @@ def r1_links(cx):
                         par = c
         cx.ob("C04.R1", "%s:link" % fname, seq_next is not None and par is not None,
               "`%s`: a node on the level of `prev` becomes `prev.next`, otherwise it is attached to its parent" % fname, mk[0].loc)
+        # a node that can name its successor (`node.set_next(<looked-up node>)`) must keep it: the link by declaration
+        # order, made when the following sibling is built, is allowed only while `prev` has no successor yet
+        explicit = [c for c in sn if _is_node(f, pa, pa.root(f, c.args[0]), mk[0])]
+        if explicit and seq_next is not None:
+            kept = False
+            for gd in guards_of(m, f, seq_next.b, mode="alias"):
+                r = gd.root
+                if r[0] == "call" and r[1].endswith("::is_none") and gd.truth is True:
+                    y = pa.root(f, Call(f, r[2]).args[0])
+                    if y[0] == "call" and y[1].endswith("::upgrade"):
+                        y = pa.root(f, Call(f, y[2]).args[0])
+                    if y[0] == "call" and y[1].endswith("Node::next"):
+                        z = pa.root(f, Call(f, y[2]).args[0])
+                        kept = kept or (z[0] == "param" and z[2] == "prev")
+            cx.ob("C04.R1", "%s:explicit-next-kept" % fname, kept,
+                  "`%s` lets a node name its successor (`next`), so the link by declaration order is made only while `prev` has no successor yet - otherwise the following sibling overwrites the declared jump" % fname, seq_next.loc)
         # prev moves on
         moved = False
         for bi, b in enumerate(f.blocks):
